@@ -125,6 +125,16 @@ class Folder:
                 if fn.id == 'pow' and (len(vs) != 2 or not all(isinstance(v, int) for v in vs) or vs[1] > 4096):
                     return UNKNOWN
                 return {'int': int, 'len': len, 'ord': ord, 'chr': chr, 'bool': bool, 'min': min, 'max': max, 'pow': pow, 'abs': abs}[fn.id](*vs)
+            if (dotted(fn) or '').rsplit('.', 1)[-1] == 'pack' and (dotted(fn) or '') in ('pack', 'struct.pack') and e.args and not e.keywords:
+                vs = [self._fold(a, mod, cls, env) for a in e.args]
+                if any(v is UNKNOWN or isinstance(v, ClassRef) for v in vs) or not isinstance(vs[0], str):
+                    return UNKNOWN
+                import struct
+
+                try:
+                    return struct.pack(vs[0], *vs[1:])
+                except Exception:
+                    return UNKNOWN
             # IntSubclass(5) -> 5 ; Cls(const) for int-like wrappers
             if len(e.args) == 1 and not e.keywords:
                 target = self._fold(fn, mod, cls, env) if isinstance(fn, (ast.Name, ast.Attribute)) else UNKNOWN
@@ -159,6 +169,17 @@ class Folder:
             if t is UNKNOWN:
                 return UNKNOWN
             return self._fold(e.body if t else e.orelse, mod, cls, env)
+        if isinstance(e, ast.BoolOp):
+            last: Any = UNKNOWN
+            for v in e.values:
+                last = self._fold(v, mod, cls, env)
+                if last is UNKNOWN or isinstance(last, ClassRef):
+                    return UNKNOWN
+                if isinstance(e.op, ast.And) and not last:
+                    return last
+                if isinstance(e.op, ast.Or) and last:
+                    return last
+            return last
         return UNKNOWN
 
     def _fold_named(self, expr: ast.AST, mod: ModuleInfo, cls: ClassInfo | None, key: tuple[str, str]) -> Any:
